@@ -209,6 +209,9 @@ func (v *ControllerVisitor) createControllerMetadata(controllerNode *ast.TypeSpe
 		return metadata.ControllerMeta{}, v.frozenError(err)
 	}
 
+	// The visitor's current file version changes as it moves on to other files: the controller keeps its own copy
+	fVersion := v.currentFVersion
+
 	result := metadata.ControllerMeta{
 		//Controller: meta,
 		Struct: metadata.StructMeta{
@@ -218,7 +221,8 @@ func (v *ControllerVisitor) createControllerMetadata(controllerNode *ast.TypeSpe
 				SymbolKind:  common.SymKindStruct,
 				PkgPath:     meta.Struct.PkgPath,
 				Annotations: &annotationHolder,
-				FVersion:    &v.currentFVersion,
+				Range:       meta.Struct.Range,
+				FVersion:    &fVersion,
 			},
 		},
 	}
